@@ -56,7 +56,7 @@ func init() {
 			if en == nil || en.typ != "string" {
 				out = append(out, resp.Nil())
 			} else {
-				out = append(out, w.tagRead(sc, []string{"MGET", k}, k, en.str))
+				out = append(out, w.tagRead(sc, []string{"MGET", k}, k, en.val(w)))
 			}
 		}
 		return rv(resp.Arr(out...))
@@ -132,7 +132,7 @@ func init() {
 		s := a[2]
 		exp := time.Time{}
 		if en != nil {
-			s = en.str + a[2]
+			s = en.val(w) + a[2]
 			exp = en.expireAt
 		}
 		setString(w, sc, a[1], s, exp)
@@ -146,7 +146,7 @@ func init() {
 		if en.typ != "string" {
 			return rv(errWrongType())
 		}
-		return rv(resp.Int(int64(len(en.str))))
+		return rv(resp.Int(int64(len(en.val(w)))))
 	}})
 	reg("GETRANGE", &cmdSpec{arity: 4, first: 1, last: 1, readonly: true, fn: func(w *World, sc *SrvConn, e *Exec, a []string) result {
 		en := sc.Node.DBs.get(sc, a[1])
@@ -161,7 +161,7 @@ func init() {
 		if en.typ != "string" {
 			return rv(errWrongType())
 		}
-		l := int64(len(en.str))
+		l := int64(len(en.val(w)))
 		if s < 0 {
 			s += l
 		}
@@ -177,7 +177,7 @@ func init() {
 		if l == 0 || s > t {
 			return rv(w.tagRead(sc, a, a[1], ""))
 		}
-		return rv(w.tagRead(sc, a, a[1], en.str[s:t+1]))
+		return rv(w.tagRead(sc, a, a[1], en.val(w)[s:t+1]))
 	}})
 
 	// expiry
@@ -675,7 +675,7 @@ func cmdGet(w *World, sc *SrvConn, e *Exec, a []string) result {
 	if en.typ != "string" {
 		return rv(errWrongType())
 	}
-	return rv(w.tagRead(sc, a[:2], a[1], en.str))
+	return rv(w.tagRead(sc, a[:2], a[1], en.val(w)))
 }
 
 func setString(w *World, sc *SrvConn, k, v string, exp time.Time) {
@@ -734,7 +734,7 @@ func cmdSet(w *World, sc *SrvConn, e *Exec, a []string) result {
 			return rv(errWrongType())
 		}
 		if en != nil {
-			old = resp.Bulk(en.str)
+			old = resp.Bulk(en.val(w))
 		}
 	}
 	if (nx && en != nil) || (xx && en == nil) {
@@ -761,7 +761,7 @@ func incrBy(w *World, sc *SrvConn, k string, d int64) resp.Value {
 		if en.typ != "string" {
 			return errWrongType()
 		}
-		c, ok := atoi(en.str)
+		c, ok := atoi(en.val(w))
 		if !ok {
 			return errNotInt()
 		}
